@@ -36,6 +36,12 @@ CHECKS = {
         text='Theorems for every history: each interior local maximum of the de-plateaued history yields exactly one whole Rychlik and one whole Johannesson cycle whose top is that maximum; with a unique top the Rychlik bottom is the higher of the two one-sided minima (partial: stated on the reversal sequence). The raw-history form of the bottoms and the Rychlik = rainflow table clause on histories closed at the global minimum are NOT proved: they are evaluated by Lean predicates on the implementation output over random and all small histories (a test). Models tied to /repo/src by exact correspondence.',
         note='Trusted: Lean kernel + standard axioms; hand-written models FF.rychlik/FF.johannesson tied by sampled + small-scope-exhaustive exact correspondence. Tested-only clauses: bottoms in terms of raw samples, Rychlik table = rainflow table (C06.RainflowEqStatement is a def, not a theorem). Known finding: constant histories.',
         ref='§5 C06'),
+    'C07': dict(
+        engine='list',
+        technique='Lean 4 proof (accumulation loop = from-to matrix by induction over the cycle list; collapse = table by uniqueness of sorted positive tables) + exact model/implementation correspondence',
+        text='Theorem C07_matrix: for every cycle list the code-shaped matrix model has sorted distinct keys, is square, has entry (i,j) equal to the total count from key i to key j, sums to the total count and collapses by |key_j-key_i| to the aggregated table; hence for all seven functions on every digitised history. Empty count gives the empty matrix. The seven functions are tied to the composed models (digitise, count, encode) by exact correspondence; the predicate also runs on the implementation output against the counter\'s own outputs on the digitised history.',
+        note='Trusted: Lean kernel + standard axioms; hand-written model FF.toMatrix (np.unique modelled as sorted distinct list, key strings parsed back to grid values); counter and digitisation models as in C02/C19; dyadic-grid arithmetic.',
+        ref='§5 C07'),
 }
 
 NOT_YET = {}
